@@ -32,6 +32,7 @@ func (g *Gen) expressible() *ast.DataMessage {
 	gm.Name = smlNames[g.pick(len(smlNames))]
 	es := 0
 	g.varSeq = 0
+	g.names = nil
 	var item ast.ItemNode = ast.NewEmptyItemNode()
 	if g.pick(8) != 0 {
 		var t *GItem
@@ -78,7 +79,15 @@ func completeBytes(m *ast.DataMessage) []int {
 				vals[n] = 1
 			}
 		}
-		x := m.FillVariables(vals)
+		var x *ast.DataMessage
+		if p, _ := try(func() { x = m.FillVariables(vals) }); p {
+			// a template that holds a name of the shape the expansion generates (v next to v[0]) may refuse to be
+			// expanded; a repeat count of 0 only removes the marker and renames nothing
+			for n := range vals {
+				vals[n] = 0
+			}
+			x = m.FillVariables(vals)
+		}
 		// every remaining variable: try the value kinds in turn
 		for _, n := range x.Variables() {
 			for _, v := range []interface{}{ast.NewBooleanNode(true), 1, true, 1.5, "", "s", "ss", "sss", "ssss", "sssss", "ssssss", "sssssss"} {
@@ -119,6 +128,7 @@ func driverPP(c *Ctx) {
 			continue
 		}
 		g := c.gen(i)
+		g.Indexed = i%3 == 0 // names with an index behind them next to their base name: v1 and v1[0]
 		if i%4 != 3 {
 			c.emit(i, ppEvent(g.expressible(), "api"))
 			c.count("pp.api")
@@ -649,6 +659,59 @@ func driverConcat(c *Ctx) {
 		g := c.gen(i)
 		n := 2 + g.pick(3)
 		var parts []string
+		switch i % 8 {
+		case 5:
+			// the same literal text in items of different types (widths), one per message: what a literal denotes
+			// depends on the item it stands in, not on where the text was seen before
+			lits := []string{"0.10000000000000000555", "1.00000005960464478", "16777217.000000001", "3.4028235677973366e38", "0.1000000014901161",
+				"7.006492321624086e-46", "123456789.123456789123456789", "1e-10000000000000000000", "0.30000000000000004440892098500626", "255", "65535", "4294967295", "1"}
+			lit := lits[g.pick(len(lits))]
+			types := []string{"F4", "F8", "F4", "F8", "F4"}
+			if !strings.ContainsAny(lit, ".e") {
+				types = []string{"U1", "U2", "I2", "U4", "I8", "F4", "F8", "B", "A"}
+			}
+			var fit []string // the types that take this literal
+			for _, ty := range types {
+				if _, errs, _ := sml.Parse(fmt.Sprintf("S1F1 <%s %s> .", ty, lit)); len(errs) == 0 {
+					fit = append(fit, ty)
+				}
+			}
+			types = fit
+			g.r.Shuffle(len(types), func(a, b int) { types[a], types[b] = types[b], types[a] })
+			for k := 0; k < n; k++ {
+				parts = append(parts, fmt.Sprintf("S1F%d <L <%s %s> <%s %s>> .", 2*k+1, types[k%len(types)], lit, types[(k+1)%len(types)], lit))
+			}
+		case 6:
+			// a message with many variables, then messages that use the same names again
+			cnt := []int{8, 16, 17, 31, 32, 33, 40, 64, 65, 100, 129, 257}[g.pick(12)]
+			var sb strings.Builder
+			sb.WriteString("S1F1 W <L")
+			for k := 0; k < cnt; k++ {
+				switch k % 4 {
+				case 0:
+					fmt.Fprintf(&sb, " slot%d", k)
+				case 1:
+					fmt.Fprintf(&sb, " <U1 slot%d>", k)
+				case 2:
+					fmt.Fprintf(&sb, " <A slot%d>", k)
+				default:
+					fmt.Fprintf(&sb, " <L <F4 1.5 slot%d>>", k)
+				}
+			}
+			sb.WriteString("> .")
+			big := sb.String()
+			small := func(k int) string {
+				return fmt.Sprintf("S2F%d <L slot%d <U2 slot%d slot0> <L slot1 ...>> .", 2*k+1, 2+g.pick(cnt-3), cnt-1)
+			}
+			pos := g.pick(n)
+			for k := 0; k < n; k++ {
+				if k == pos {
+					parts = append(parts, big)
+				} else {
+					parts = append(parts, small(k))
+				}
+			}
+		}
 		for len(parts) < n {
 			g.varSeq = 0 // the same variable names and ellipsis numbers come back in every message
 			var t string
